@@ -151,3 +151,105 @@ mod neon;
     httparse_simd_neon_intrinsics,
 ))]
 pub use self::neon::*;
+
+// Verification hooks (compiled only with `--cfg httparse_verif`): run one named scanner backend.
+#[cfg(httparse_verif)]
+#[doc(hidden)]
+#[allow(missing_docs)]
+pub mod _verif {
+    use crate::iter::Bytes;
+
+    pub use super::swar::_verif_swar::*;
+
+    /// `backend`: 0 = the scanner this build dispatches to, 1 = AVX2, 2 = SSE4.2, 3 = SWAR.
+    /// `class`: 0 = URI, 1 = header value, 2 = header name.
+    /// Returns the scanner's stop position, or `None` if that backend is not part of this
+    /// build or not supported by this CPU.
+    pub fn scan(backend: u8, class: u8, buf: &[u8]) -> Option<usize> {
+        let mut bytes = Bytes::new(buf);
+        let ran = match (backend, class) {
+            (0, 0) => { super::match_uri_vectored(&mut bytes); true }
+            (0, 1) => { super::match_header_value_vectored(&mut bytes); true }
+            (0, 2) => { super::match_header_name_vectored(&mut bytes); true }
+            (1, 0) => avx2_uri(&mut bytes),
+            (1, 1) => avx2_value(&mut bytes),
+            (2, 0) => sse42_uri(&mut bytes),
+            (2, 1) => sse42_value(&mut bytes),
+            (3, 0) => { super::swar::match_uri_vectored(&mut bytes); true }
+            (3, 1) => { super::swar::match_header_value_vectored(&mut bytes); true }
+            (3, 2) => { super::swar::match_header_name_vectored(&mut bytes); true }
+            _ => false,
+        };
+        if ran { Some(bytes.pos()) } else { None }
+    }
+
+    #[cfg(all(
+        httparse_simd,
+        any(httparse_simd_target_feature_avx2, not(httparse_simd_target_feature_sse42)),
+        any(target_arch = "x86", target_arch = "x86_64"),
+    ))]
+    fn avx2_uri(bytes: &mut Bytes<'_>) -> bool {
+        if !is_x86_feature_detected!("avx2") { return false; }
+        // SAFETY: guarded by the feature check above
+        unsafe { super::avx2::match_uri_vectored(bytes) };
+        true
+    }
+    #[cfg(all(
+        httparse_simd,
+        any(httparse_simd_target_feature_avx2, not(httparse_simd_target_feature_sse42)),
+        any(target_arch = "x86", target_arch = "x86_64"),
+    ))]
+    fn avx2_value(bytes: &mut Bytes<'_>) -> bool {
+        if !is_x86_feature_detected!("avx2") { return false; }
+        // SAFETY: guarded by the feature check above
+        unsafe { super::avx2::match_header_value_vectored(bytes) };
+        true
+    }
+    #[cfg(not(all(
+        httparse_simd,
+        any(httparse_simd_target_feature_avx2, not(httparse_simd_target_feature_sse42)),
+        any(target_arch = "x86", target_arch = "x86_64"),
+    )))]
+    fn avx2_uri(_: &mut Bytes<'_>) -> bool { false }
+    #[cfg(not(all(
+        httparse_simd,
+        any(httparse_simd_target_feature_avx2, not(httparse_simd_target_feature_sse42)),
+        any(target_arch = "x86", target_arch = "x86_64"),
+    )))]
+    fn avx2_value(_: &mut Bytes<'_>) -> bool { false }
+
+    #[cfg(all(
+        httparse_simd,
+        not(httparse_simd_target_feature_avx2),
+        any(target_arch = "x86", target_arch = "x86_64"),
+    ))]
+    fn sse42_uri(bytes: &mut Bytes<'_>) -> bool {
+        if !is_x86_feature_detected!("sse4.2") { return false; }
+        // SAFETY: guarded by the feature check above
+        unsafe { super::sse42::match_uri_vectored(bytes) };
+        true
+    }
+    #[cfg(all(
+        httparse_simd,
+        not(httparse_simd_target_feature_avx2),
+        any(target_arch = "x86", target_arch = "x86_64"),
+    ))]
+    fn sse42_value(bytes: &mut Bytes<'_>) -> bool {
+        if !is_x86_feature_detected!("sse4.2") { return false; }
+        // SAFETY: guarded by the feature check above
+        unsafe { super::sse42::match_header_value_vectored(bytes) };
+        true
+    }
+    #[cfg(not(all(
+        httparse_simd,
+        not(httparse_simd_target_feature_avx2),
+        any(target_arch = "x86", target_arch = "x86_64"),
+    )))]
+    fn sse42_uri(_: &mut Bytes<'_>) -> bool { false }
+    #[cfg(not(all(
+        httparse_simd,
+        not(httparse_simd_target_feature_avx2),
+        any(target_arch = "x86", target_arch = "x86_64"),
+    )))]
+    fn sse42_value(_: &mut Bytes<'_>) -> bool { false }
+}
